@@ -45,6 +45,7 @@ class Ctx:
         self.analysed: set[str] = set()
         self.notes: list[str] = []
         self.counts: dict[str, int] = {}
+        self._seen: set = set()
 
     # -- helpers used by rules
     def _loc(self, fi, node):
@@ -57,6 +58,10 @@ class Ctx:
         if construct is None:
             construct = norm_src(node) if isinstance(node, ast.AST) else ""
         r = Result(self.prop, rule, status, fi.qualname if fi is not None else "", file, line, construct, msg, detail)
+        dk = (rule, status, r.func, r.construct)
+        if dk in self._seen:
+            return r
+        self._seen.add(dk)
         self.results.append(r)
         if fi is not None:
             self.analysed.add(fi.qualname)
